@@ -41,7 +41,7 @@ def run(ctx):
   ctx.trusted = ["Coq 8.16.1 kernel + vm_compute", "translator tools/translate_query.py + idiom table coq/Base/NP.v",
                  "binary64 rounding is not modelled in the theorems (real-number statement); finiteness is checked on the implementation only",
                  "harness passes identical numbers to both sides (hex floats / exact dyadic rationals)"]
-  ok = ctx.build_property(gen_needed=['Src_query'])
+  ok = ctx.build_property(gen_needed=['Src_query'], case_libs=('Model/CaseDefs.vo', 'Model/CaseDefsQuery.vo'))
   n_exact = 3000 if thorough else 400
   terms, recs = mc.exact_cases(ctx, n_exact, 'C01')
   tterms, trecs = mc.tol_cases(ctx, 'C01', variants=thorough)
